@@ -163,19 +163,22 @@ func streamUnmarshal(r *hx.Rng, cfs []*cfile, bs *builtSet) {
 					case "C17":
 						cases = append(cases, ucase{c, md, canon, pre, "canonical", true})
 					case "C08":
-						if vi%5 != 0 && !thorough {
-							continue
+						if !thorough && vi%5 != 0 || thorough && vi%2 != 0 {
+							continue // (quick: every fifth value, thorough: every second)
 						}
 						g := &vgen{r: r, unknown: true, noTrick: true}
 						base := g.message(v)
 						cases = append(cases, ucase{c, md, base, pre, "valid", false})
-					// the same value as legal wire data no encoder emits: split / mixed packed runs, empty runs, superseded
-					// occurrences, sub-messages split over two occurrences
-					g2 := &vgen{r: r, unknown: true, merge: true}
-					cases = append(cases, ucase{c, md, g2.message(v), nil, "valid-variant", false}, ucase{c, md, g2.message(v), pre, "valid-variant", false})
-						step := 1
-						if len(base) > 40 && !thorough {
-							step = len(base) / 40
+						// the same value as legal wire data no encoder emits: split / mixed packed runs, empty runs, superseded
+						// occurrences, sub-messages split over two occurrences
+						g2 := &vgen{r: r, unknown: true, merge: true}
+						cases = append(cases, ucase{c, md, g2.message(v), nil, "valid-variant", false}, ucase{c, md, g2.message(v), pre, "valid-variant", false})
+						step, limit := 1, 40
+						if thorough {
+							limit = 80
+						}
+						if len(base) > limit {
+							step = len(base) / limit
 						}
 						for cut := 0; cut < len(base); cut += step {
 							cases = append(cases, ucase{c, md, base[:cut], nil, "truncated", false})
@@ -187,7 +190,7 @@ func streamUnmarshal(r *hx.Rng, cfs []*cfile, bs *builtSet) {
 						}
 						cases = append(cases, ucase{c, md, inflate(r, base), nil, "inflated", false}, ucase{c, md, inflate(r, base), pre, "inflated", false},
 							ucase{c, md, r.Bytes(1 + r.Intn(16)), nil, "random", false})
-						if vi%10 == 0 {
+						if vi%10 == 0 || thorough && vi%4 == 0 {
 							// an unknown field whose KEY is a non-minimal varint (well-formed wire data no writer emits), first / last
 							unk := g.unknownField(md)
 							_, _, kn := protowire.ConsumeTag(unk)
